@@ -825,6 +825,9 @@ def run(prog, ctx):
     # filled past its load limit makes the open-addressing probe spin or hit its drift limit inside deserialize()
     C.import_rules(res, prog, ctx, "C14.K", "C07", ("C07.K",), "map rebuilt from an image keeps its load limit", 0,
                    key_filter=lambda k: "deserialize" in k)
+    # a decoded compact theta sketch recorded as ordered is handed to the compressed writer, which subtracts consecutive entries:
+    # the ordered form needs the entries to have been compared (C13.D)
+    C.import_rules(res, prog, ctx, "C14.D", "C13", ("C13.D",), "ordered form of a decoded theta sketch", 0)
     res.explanation = ("interprocedural interval + taint abstract interpretation (MIR) over the %d functions reachable from the %d "
                        "deserialize entry points; every byte-tainted shift, allocation, index, checked arithmetic, division, explicit panic and "
                        "unwrap is an obligation; discharged = proved from dominating guards / post-conditions / field invariants; "
